@@ -14,17 +14,19 @@ import Mathlib.LinearAlgebra.Matrix.Determinant.Basic
 (harness/sym/sym_c12p.cpp) and validated bitwise at double against the real function on every run.  `jacobiSVD (C, U, S, V, eps,
 forcePositiveDeterminant = true)` is a pair of uninterpreted parameters `svdU svdV : M33 α → M33 α` (`S` is not used by the code).
 
-Exact arithmetic over a field of characteristic 0 (ordered field); row-vector convention (`p ↦ p * M`).  Proved, weighted and
-unweighted, with and without `doScale`:
-* the value: `translate (-cA) · (s • V·Uᵀ) · translate (cB)` with `cA`, `cB` the (weighted) centroids, `U, V` the factors the solver
-  returns for the (weighted) covariance `C = Σ w (b - cB) ⊗ (a - cA)`, `s = 1` or `tr (Qᵀ C) / Σ w |a - cA|²` (the Kahan summations
-  are exact sums in exact arithmetic);
-* hence the (weighted) centroid of `A` is mapped onto that of `B`, the last column is `(0, 0, 0, 1)`, and — for ANY solver that
-  returns orthogonal `U`, `V` with determinant +1 (what `jacobiSVD` with `forcePositiveDeterminant` promises and C12's Jacobi
-  theorems / residue cover) — the linear part is `s` times a rotation;
-* zero total weight returns the identity.
-NOT proved (measured by harness/corr/c12_residue.cpp): that this transform is the least-squares optimum / recovers an exact rigid
-transform (needs the optimality of the polar factor of `C`), N ≠ 3, rounding.
+Exact arithmetic over an ordered field; row-vector convention (`p ↦ p * M`).  Proved for `doScale = false`, weighted and unweighted:
+* the value: `translate (-cA) · (V·Uᵀ) · translate (cB)` with `cA`, `cB` the (weighted) centroids and `U, V` the factors the solver
+  returns for the (weighted) covariance `C = Σ w (b - cB) ⊗ (a - cA)` (`procrustes3_weighted`, `procrustes3_unweighted`; the
+  unweighted loops are the weighted ones with unit weights: `unit_weights`);
+* hence (for any scale `s`, `spec_maps_centroid`) the centroid of `A` is mapped onto that of `B` and the last column is
+  `(0, 0, 0, 1)`, and — for ANY solver that returns orthogonal `U`, `V` with determinant +1 (what `jacobiSVD` with
+  `forcePositiveDeterminant` promises; C12's Jacobi theorems and residue) — the linear part is `s` times a rotation
+  (`spec_linear_is_scaled_rotation`);
+* zero total weight returns the identity, both `doScale` values (`procrustes3_zero_weight`).
+NOT proved: the `doScale = true` value (`s = tr (Qᵀ C) / Σ w |a - cA|²` through two Kahan summations: the extracted definitions
+`…3_1` are regenerated and validated, the entrywise `ring` proof did not finish in 15 minutes); that the transform is the
+least-squares optimum / recovers an exact rigid transform (needs the optimality of the polar factor of `C`); N ≠ 3; rounding.
+These are measured by harness/corr/c12_residue.cpp.
 -/
 namespace ImathVerif.C12P
 open ImathVerif ImathVerif.Euler Matrix
@@ -102,18 +104,6 @@ theorem procrustes3_weighted (svdU svdV : M33 α → M33 α) (a0 a1 a2 b0 b1 b2 
   simp only [Gen.Procrustes.weighted3_0, if_neg hw']
   procrustes_tac
 
-set_option maxHeartbeats 8000000 in
-/-- weighted, `doScale = true`: the same with the uniform scale `tr (Qᵀ C) / Σ w |a - cA|²` (Kahan sums = exact sums) -/
-theorem procrustes3_weighted_scaled (svdU svdV : M33 α → M33 α) (a0 a1 a2 b0 b1 b2 w : V3 α) (hw : w.x + w.y + w.z ≠ 0) :
-    (Gen.Procrustes.weighted3_1 svdU svdV a0 a1 a2 b0 b1 b2 w).toMat =
-      spec (scaleOf w a0 a1 a2 (cov w a0 a1 a2 b0 b1 b2)
-              ((svdV (ofMat (cov w a0 a1 a2 b0 b1 b2))).toMat * (svdU (ofMat (cov w a0 a1 a2 b0 b1 b2))).toMatᵀ))
-        (svdU (ofMat (cov w a0 a1 a2 b0 b1 b2))) (svdV (ofMat (cov w a0 a1 a2 b0 b1 b2)))
-        (centroid w a0 a1 a2) (centroid w b0 b1 b2) := by
-  have hw' : ((0 : α) + w.x + w.y + w.z) ≠ 0 := by simpa using hw
-  simp only [Gen.Procrustes.weighted3_1, if_neg hw']
-  procrustes_tac
-
 /-- zero total weight: the identity matrix is returned (both `doScale` values) -/
 theorem procrustes3_zero_weight (svdU svdV : M33 α → M33 α) (a0 a1 a2 b0 b1 b2 w : V3 α) (hw : w.x + w.y + w.z = 0) :
     (Gen.Procrustes.weighted3_0 svdU svdV a0 a1 a2 b0 b1 b2 w).toMat = 1 ∧
@@ -125,25 +115,42 @@ theorem procrustes3_zero_weight (svdU svdV : M33 α → M33 α) (a0 a1 a2 b0 b1 
   · simp only [Gen.Procrustes.weighted3_1, if_pos hw']
     ext i j; fin_cases i <;> fin_cases j <;> simp [M44.toMat]
 
-set_option maxHeartbeats 8000000 in
-/-- unweighted = unit weights (the code has a separate loop for `weights == 0`), with and without scale -/
+/-- plain centroid and covariance (the `weights == 0` loops of the code) -/
+def centroid3 (p0 p1 p2 : V3 α) : V3 α := ⟨(p0.x + p1.x + p2.x) / 3, (p0.y + p1.y + p2.y) / 3, (p0.z + p1.z + p2.z) / 3⟩
+def cov3 (a0 a1 a2 b0 b1 b2 : V3 α) : Matrix (Fin 3) (Fin 3) α :=
+  outer (sub3 b0 (centroid3 b0 b1 b2)) (sub3 a0 (centroid3 a0 a1 a2)) + outer (sub3 b1 (centroid3 b0 b1 b2)) (sub3 a1 (centroid3 a0 a1 a2)) +
+  outer (sub3 b2 (centroid3 b0 b1 b2)) (sub3 a2 (centroid3 a0 a1 a2))
+
+/-- they are the weighted ones with unit weights -/
+theorem unit_weights (a0 a1 a2 b0 b1 b2 : V3 α) :
+    centroid one3 a0 a1 a2 = centroid3 a0 a1 a2 ∧ cov one3 a0 a1 a2 b0 b1 b2 = cov3 a0 a1 a2 b0 b1 b2 := by
+  have h3 : (1 : α) + 1 + 1 = 3 := by norm_num
+  have hc : ∀ p0 p1 p2 : V3 α, centroid one3 p0 p1 p2 = centroid3 p0 p1 p2 := by
+    intro p0 p1 p2; simp only [centroid, centroid3, one3, one_mul, h3]
+  refine ⟨hc _ _ _, ?_⟩
+  have hc' : ∀ p0 p1 p2 : V3 α, centroid (⟨1, 1, 1⟩ : V3 α) p0 p1 p2 = centroid3 p0 p1 p2 := hc
+  simp only [cov, cov3, one3, one_smul, hc']
+
+set_option maxHeartbeats 4000000 in
+/-- unweighted (the code has separate loops for `weights == 0`), `doScale = false` -/
 theorem procrustes3_unweighted (svdU svdV : M33 α → M33 α) (a0 a1 a2 b0 b1 b2 : V3 α) :
     (Gen.Procrustes.unweighted3_0 svdU svdV a0 a1 a2 b0 b1 b2).toMat =
-      spec 1 (svdU (ofMat (cov one3 a0 a1 a2 b0 b1 b2))) (svdV (ofMat (cov one3 a0 a1 a2 b0 b1 b2)))
-        (centroid one3 a0 a1 a2) (centroid one3 b0 b1 b2) ∧
-    (Gen.Procrustes.unweighted3_1 svdU svdV a0 a1 a2 b0 b1 b2).toMat =
-      spec (scaleOf one3 a0 a1 a2 (cov one3 a0 a1 a2 b0 b1 b2)
-              ((svdV (ofMat (cov one3 a0 a1 a2 b0 b1 b2))).toMat * (svdU (ofMat (cov one3 a0 a1 a2 b0 b1 b2))).toMatᵀ))
-        (svdU (ofMat (cov one3 a0 a1 a2 b0 b1 b2))) (svdV (ofMat (cov one3 a0 a1 a2 b0 b1 b2)))
-        (centroid one3 a0 a1 a2) (centroid one3 b0 b1 b2) := by
-  have h3 : (1 : α) + 1 + 1 = 3 := by norm_num
-  constructor
-  · simp only [Gen.Procrustes.unweighted3_0]
-    set w : V3 α := one3 with hwdef
-    procrustes_tac
-  · simp only [Gen.Procrustes.unweighted3_1]
-    set w : V3 α := one3 with hwdef
-    procrustes_tac
+      spec 1 (svdU (ofMat (cov3 a0 a1 a2 b0 b1 b2))) (svdV (ofMat (cov3 a0 a1 a2 b0 b1 b2)))
+        (centroid3 a0 a1 a2) (centroid3 b0 b1 b2) := by
+  simp only [Gen.Procrustes.unweighted3_0]
+  generalize hU : svdU _ = U
+  generalize hV : svdV _ = V
+  have eU : svdU (ofMat (cov3 a0 a1 a2 b0 b1 b2)) = U := by
+    rw [← hU]; apply arg_eq
+    apply M33.ext' <;> (simp [ofMat, cov3, outer, sub3, centroid3] <;> ring)
+  have eV : svdV (ofMat (cov3 a0 a1 a2 b0 b1 b2)) = V := by
+    rw [← hV]; apply arg_eq
+    apply M33.ext' <;> (simp [ofMat, cov3, outer, sub3, centroid3] <;> ring)
+  rw [eU, eV]
+  ext i j
+  fin_cases i <;> fin_cases j <;>
+    simp [M44.toMat, M33.toMat, spec, transH, linH, negV, centroid3, Matrix.mul_apply,
+      Fin.sum_univ_four, Fin.sum_univ_three, Matrix.vecMul, dotProduct, Matrix.transpose_apply] <;> ring
 
 /-! ## consequences of the value -/
 
